@@ -5,6 +5,8 @@ import SciVerif.Tie.Pins
 /-! Tie A obligations for C19: the shape of both copies of `combine`, of `FileSplitter.Run`'s loop,
 of `IPSelectorSync.Run`/`recvOneEach`, of `Concatenator.Run` and of the source components. -/
 namespace SciVerif.Tie
+-- functions the model relies on without an obligation of its own naming them (pinned by bin/mkpins):
+-- PIN-ALSO: Components.IPSelectorSync_syncRead Components.FileSplitter_createNewSplitFile Components.FileSplitter_newSplitIPFromIndex Components.cleanFilePatterns Components.cleanFiles
 open SciVerif.Generated
 
 /-- the recursion and the two inner loops of `combine`, for the map called `inName` / `outName` -/
@@ -72,6 +74,7 @@ theorem generated_concat_and_sources :
      Components.FileGlobber_globFiles.any (fun a => a.isCall "Glob" && a.recv == "filepath")) = true := by decide
 
 
+
 -- BEGIN PINS (written by bin/mkpins; do not edit by hand)
 /-- the Go functions this property's model and obligations were written against have exactly the
 pinned skeletons (SHA-256 prefix of the atom list) -/
@@ -84,11 +87,16 @@ theorem pinned_skeletons_c19 :
      ("Components.FileGlobber_globFiles", "ee82b1a1db56bffd"),
      ("Components.FileSource_Run", "301d30b840f1f193"),
      ("Components.FileSplitter_Run", "5b56a840c637c735"),
+     ("Components.FileSplitter_createNewSplitFile", "d5b42d9115976cfa"),
+     ("Components.FileSplitter_newSplitIPFromIndex", "e828aaa7fdf98ca3"),
      ("Components.FileToParamsReader_Run", "73e9b69121ec7f25"),
      ("Components.IPSelectorSync_Run", "bdc706bc9ab92453"),
      ("Components.IPSelectorSync_recvOneEach", "61813e5b75ed7704"),
+     ("Components.IPSelectorSync_syncRead", "c002d25cd3f8836d"),
      ("Components.ParamCombinator_Run", "f5dcec212739b17f"),
      ("Components.ParamSource_Run", "e8fb20620214e0d2"),
+     ("Components.cleanFilePatterns", "d7d8d66bd51f800c"),
+     ("Components.cleanFiles", "59305c7d8422deb9"),
      ("Components.combine", "821eee6a8fd86d62")] = true := by decide
 -- END PINS
 
